@@ -75,7 +75,9 @@ def gen_case(r, probe, feats, names):
     cli = {"value": pick() if r.random() < 0.15 else None, "features": fl(r.randint(1, 2)) if r.random() < 0.4 else None, "env": None,
            "flags": [f for f in ("navigate", "raw", "color-only") if r.random() < 0.08], "no_gitconfig": r.random() < 0.08}
     if r.random() < 0.35:
-        cli["env"] = ("+" if r.random() < 0.5 else "=", fl(1))   # one feature in DELTA_FEATURES (order inside '+' lists is not part of the claim)
+        # DELTA_FEATURES: without '+' it replaces --features and is read like it (last-listed first); with '+' its
+        # features come before those of --features in listed order — both as the model has them
+        cli["env"] = ("+" if r.random() < 0.5 else "=", fl(r.randint(1, 3)))
     if probe == "keep-plus-minus-markers" and cli["value"] == "false":
         cli["value"] = None   # a boolean flag can only be given as true on the command line
     return {"probe": probe, "gc": gc, "cli": cli}
@@ -204,6 +206,18 @@ def main(tier, replay=None):
         for i in range(n):
             r = vlib.case_rng(chk.seed, PID, i)
             cases.append(gen_case(r, r.choice(list(PROBES)), feats, names))
+        # features listed together: two or three custom sections that set the option differently, named by
+        # --features or by DELTA_FEATURES (no '+'); the last-listed wins
+        for i in range(40 if tier == "quick" else 400):
+            r = vlib.case_rng(chk.seed, PID, ("listed", i))
+            probe = r.choice([p for p in PROBES if len(PROBES[p][0]) >= 3])
+            lst = r.sample(CUSTOM, r.randint(2, 3))
+            vals = r.sample(PROBES[probe][0], len(lst))
+            gc = {"main": {"value": None, "env": None, "features": r.choice([None, ["a"]]), "flags": []},
+                  "custom": {f: {"value": v, "env": None, "features": None, "flags": []} for f, v in zip(lst, vals)}}
+            via_env = r.random() < 0.6
+            cli = {"value": None, "features": None if via_env else lst, "env": ("=", lst) if via_env else None, "flags": [], "no_gitconfig": False}
+            cases.append({"probe": probe, "gc": gc, "cli": cli})
     chk.rule = ("placements of five probe options (string, optional string, two integers, boolean) over: command line, [delta] section, "
                 "GIT_CONFIG_PARAMETERS overrides, custom [delta \"x\"] sections (also named like built-ins), feature lists (nested, "
                 "repeated, self-referential), DELTA_FEATURES with and without '+', command-line feature flags, --no-gitconfig; "
@@ -248,6 +262,20 @@ def main(tier, replay=None):
             exp = c["gc"]["main"]["env"]
         elif not c["cli"]["no_gitconfig"] and c["gc"]["main"]["value"] is not None:
             exp = c["gc"]["main"]["value"]
+        if exp is None and not c["cli"]["no_gitconfig"] and not c["cli"]["flags"] and not c["gc"]["main"]["flags"]:
+            # features named together by --features or by DELTA_FEATURES (no '+'): the last-listed one that
+            # sets the option wins — evaluated when every listed feature is a plain custom section
+            lst = None
+            if c["cli"]["env"] is not None and c["cli"]["env"][0] == "=":
+                lst = c["cli"]["env"][1]
+            elif c["cli"]["env"] is None and c["cli"]["features"] is not None:
+                lst = c["cli"]["features"]
+            if lst is not None and all(f in CUSTOM for f in lst):
+                secs = [c["gc"]["custom"].get(f) for f in lst]
+                if all(sx is None or (sx["features"] is None and not sx["flags"]) for sx in secs):
+                    vals = [sx["value"] for sx in secs if sx is not None and sx["value"] is not None]
+                    if vals:
+                        exp = vals[-1]
         if exp is not None and outs[0][1] != fmt(exp):
             chk.violation({"property": PID, "shape": "precedence", "case": c,
                            "why": f"{c['probe']}: the highest-priority source sets {exp!r} but --show-config reports {outs[0][1]!r}"})
